@@ -182,6 +182,26 @@ CHECKS = {
              'transitivity laws, hostile texts, sampled numbers and strings in the thorough tier.',
         note='magnitudes bounded (|x| <= 1e6, exponents <= 64); a huge exact int counts as a number',
         design='DESIGN.md section 5 C10'),
+    'C12': dict(
+        technique='runtime monitoring with fault injection into stored results: hand-written .xlsx files whose cached '
+                  'formula results are consistent, then exactly one cached result altered at a time; the '
+                  'validate_calcs report is checked against the alteration and the ground-truth dependants',
+        level='fault_enumeration',
+        text='Every formula cell reachable from the checked outputs in turn x alteration kind x tolerance x choice of '
+             'outputs; unknown-function and raising-plugin cells must be reported, not skipped.',
+        note='stored results are pycel\'s own fresh values; dependants come from the generator\'s ground truth; below '
+             'the tolerance only "the altered cell itself is not listed" is asserted',
+        design='DESIGN.md section 5 C12'),
+    'C13': dict(
+        technique='runtime monitoring: the lifting law checked position by position against pycel\'s own scalar path; '
+                  'the fitting rule of the statement as reference model over all result x target shapes through real '
+                  'array formula cells',
+        level='exploration',
+        text='All 256 (result shape, target shape) pairs <= 4x4 in every run (range value, every member cell, before '
+             'and after a set_value), all operators over all operand shapes with scalar/row/column/row x column '
+             'partners incl. error-valued scalars, 15 array-aware functions, a sample through real workbooks.',
+        note='the scalar semantics themselves belong to C10/C19/C20',
+        design='DESIGN.md section 5 C13'),
 }
 
 NOT_YET = {}
